@@ -34,6 +34,82 @@ func runC15(c *core.Ctx, r *core.Reporter) {
 	c15tables(c, r)
 	c15args(c, r)
 	c15dest(c, r)
+	c15force(c, r)
+}
+
+// c15force: a printing function that forces a printer control (princ and ~A force escape off, prin1 and ~S force
+// it on, ...) works on a private copy of the printer, refreshes the copy from the dynamic bindings (ScopedUpdate)
+// and then assigns the forced value. If the refresh runs after the assignment a binding of *print-escape* wins
+// and princ no longer agrees with ~A.
+func c15force(c *core.Ctx, r *core.Reporter) {
+	const rule = "C15.force"
+	r.Rule(rule, "in every function that assigns a constant to a control field of a private Printer copy and refreshes that copy from the dynamic bindings (Printer.ScopedUpdate), no refresh is reachable after such an assignment: the forced setting (princ/~A: escape off; prin1/~S: escape on) must win over a binding of the corresponding *print-...* variable", 8)
+	su := c.LookupFunc("", "Printer.ScopedUpdate")
+	if su == nil {
+		r.Undecided(rule, "slip.(Printer).ScopedUpdate", "-", "anchor does not resolve")
+		return
+	}
+	suFn := c.SSAFunc(su)
+	for _, fn := range c.ModuleFuncs() {
+		if takesTestingT(fn) || fn.Blocks == nil {
+			continue
+		}
+		type ev struct {
+			b   *ssa.BasicBlock
+			idx int
+			pos token.Pos
+			fld string
+		}
+		stores := map[ssa.Value][]ev{}
+		refresh := map[ssa.Value][]ev{}
+		for _, b := range fn.Blocks {
+			for i, in := range b.Instrs {
+				switch x := in.(type) {
+				case *ssa.Store:
+					fa, ok := x.Addr.(*ssa.FieldAddr)
+					if !ok || !isPrinterPtr(fa.X.Type()) {
+						continue
+					}
+					if _, isConst := x.Val.(*ssa.Const); !isConst {
+						continue
+					}
+					stores[fa.X] = append(stores[fa.X], ev{b, i, x.Pos(), fieldName(fa)})
+				case *ssa.Call:
+					if x.Call.StaticCallee() == suFn && len(x.Call.Args) > 0 {
+						refresh[x.Call.Args[0]] = append(refresh[x.Call.Args[0]], ev{b, i, x.Pos(), ""})
+					}
+				}
+			}
+		}
+		for pv, sts := range stores {
+			rf := refresh[pv]
+			if len(rf) == 0 {
+				continue
+			}
+			var late []string
+			for _, st := range sts {
+				after := core.ReachableBlocks(st.b, nil)
+				for _, cl := range rf {
+					isAfter := false
+					if cl.b == st.b {
+						isAfter = cl.idx > st.idx || loopsBack(st.b)
+					} else {
+						isAfter = after[cl.b]
+					}
+					if isAfter {
+						late = append(late, fmt.Sprintf("%s assigned at %s, refreshed at %s", st.fld, c.Pos(st.pos), c.Pos(cl.pos)))
+					}
+				}
+			}
+			sort.Strings(late)
+			r.Decide(len(late) == 0, rule, core.SSAName(fn), c.Pos(sts[0].pos), orOKs(strings.Join(late, "; "), fmt.Sprintf("%d forced controls, all assigned after the refresh", len(sts))))
+		}
+	}
+}
+
+func isPrinterPtr(t types.Type) bool {
+	pt, ok := t.Underlying().(*types.Pointer)
+	return ok && core.IsNamed(pt.Elem(), core.SlipPath, "Printer")
 }
 
 // switchLabels collects byte constants compared (==) with one SSA value that
